@@ -11,7 +11,9 @@ EXPLANATION = (
     "return value <- status.code(), and the process is started from cmd_args[0] with arguments cmd_args[1..] in run_dir. "
     "D4: every digest context created for the requested algorithms is updated with buf[0..n], n being the result of "
     "read(&mut buf) on the same buffer, and finished. D5: the walker follows links (constant true). D6: the loops that "
-    "enumerate paths and directory entries are left only by exhaustion or by returning an error (no silent truncation). "
+    "enumerate paths and directory entries are left only by exhaustion or by returning an error (no silent truncation), "
+    "and the walk is pruned (skip_current_dir) only under `visited.contains(entry) == true` for a set the same entries are "
+    "inserted into. "
     "D7: strip-prefix selection compares the length of the candidate prefix with the length of the best prefix so far.")
 DECIDED = ["D1 materials before / products after the command", "D2 no silent replacement of an artifact key", "D3 by-products and process arguments mapping",
            "D4 bytes hashed are the bytes read, for every requested algorithm", "D5 symbolic links are followed", "D6 the walk is never silently cut short",
@@ -74,18 +76,48 @@ def run(ctx):
         ctx.bad("C18/D2", "record_artifacts", "not found (failing closed)")
     else:
         b = ctx.region(None, policy="private", key=f["key"], ps=True)
-        ins = [(i, t) for (i, t) in b.calls_named("std::collections::BTreeMap::insert", "std::collections::HashMap::insert")
-               if "VirtualTargetPath" in (t.get("arg_tys") or [""])[0]]
+        ins = [(i, t) for (i, t) in b.calls() if "VirtualTargetPath" in (t.get("arg_tys") or [""])[0] and (
+               callee_name(t) in ("std::collections::BTreeMap::insert", "std::collections::HashMap::insert") or
+               (callee_name(t) or "").endswith("VacantEntry::insert"))]
+        silent = [(i, callee_name(t)) for (i, t) in b.calls() if "VirtualTargetPath" in (t.get("arg_tys") or [""])[0] and
+                  (callee_name(t) or "").split("::")[-1] in ("or_insert", "or_insert_with", "or_default", "and_modify", "insert_entry", "extend", "append")]
         if not ins:
             ctx.bad("C18/D2", "artifact insertion", "no insertion into the artifact map found")
+        if silent:
+            ctx.bad("C18/D2", "artifact insertion without a collision error", "the artifact map is written by %s, which keeps or replaces an existing "
+                    "entry without an error" % silent)
         for k, (i, t) in enumerate(ins):
             guarded = False
+            how = "NOT edge-dominated by contains_key(same map, same key) == false"
+            if (callee_name(t) or "").endswith("VacantEntry::insert"):
+                # map.entry(key): the Vacant arm inserts, the Occupied arm must return an error
+                for (e, fa) in b.facts_dominating(i):
+                    if fa[0] == "variant" and fa[2] == "Vacant":
+                        el = b.trace(fa[1])
+                        if el and all(l.kind == "call" and (callee_name(l.data[1]) or "").split("::")[-1] == "entry" for l in el):
+                            occ = [(e2, tb2) for (e2, tb2, fa2) in b.all_edge_facts() if e2[0] == e[0] and e2 != e]
+                            if occ and all(b._is_err_return_path(e2[0], tb2, set(), e2[1]) for (e2, tb2) in occ):
+                                guarded = True
+                                how = "the Vacant arm of entry(key); the Occupied arm returns an error"
+            else:
+                for (e, n, pt, truth) in dominating_preds(b, i):
+                    if (n or "").split("::")[-1] == "contains_key" and truth is False and \
+                            root_ids(b, pt["args"][0]) == root_ids(b, t["args"][0]) and root_ids(b, pt["args"][1]) == root_ids(b, t["args"][1]):
+                        guarded = True
+                        how = "edge-dominated by contains_key(same map, same key) == false"
+            ctx.inst("C18/D2", "artifact insertion #%d guarded against an existing key" % (k + 1), guarded, "insert is " + how, t["at"])
+        # the walk is pruned (skip_current_dir) only at an entry that was already visited: any other pruning drops files
+        for k, (i, t) in enumerate(sorted(b.calls_named("walkdir::IntoIter::skip_current_dir"))):
+            seen_before = False
             for (e, n, pt, truth) in dominating_preds(b, i):
-                if (n or "").split("::")[-1] == "contains_key" and truth is False and \
-                        root_ids(b, pt["args"][0]) == root_ids(b, t["args"][0]) and root_ids(b, pt["args"][1]) == root_ids(b, t["args"][1]):
-                    guarded = True
-            ctx.inst("C18/D2", "artifact insertion #%d guarded against an existing key" % (k + 1), guarded,
-                     "insert is %sedge-dominated by contains_key(same map, same key) == false" % ("" if guarded else "NOT "), t["at"])
+                if (n or "").split("::")[-1] == "contains" and truth is True and "HashSet" in (pt.get("arg_tys") or [""])[0]:
+                    # the set must be one that records visited entries: the same path is inserted when it is not contained
+                    sroot = root_ids(b, pt["args"][0])
+                    ins_same = [1 for (j, tt) in b.calls_named("std::collections::HashSet::insert") if root_ids(b, tt["args"][0]) == sroot]
+                    if ins_same:
+                        seen_before = True
+            ctx.inst("C18/D6", "walk pruned only at an entry already visited #%d" % (k + 1), seen_before,
+                     "skip_current_dir is %sedge-dominated by `visited.contains(entry) == true`" % ("" if seen_before else "NOT "), t["at"])
         fl = b.calls_named("walkdir::WalkDir::follow_links")
         okfl = len(fl) >= 1 and all((op_const(t["args"][1]) or {}).get("int") == 1 for (i, t) in fl)
         ctx.inst("C18/D5", "walker follows symbolic links", okfl, "follow_links argument(s): %s" % [(op_const(t["args"][1]) or {}).get("int") for (i, t) in fl], f["at"])
@@ -148,37 +180,21 @@ def run(ctx):
             ctx.inst("C18/D3", "the executable is cmd_args[0]", okn and zero, "Command::new argument derives from an element of cmd_args: %s; constant index 0: %s" % (okn, zero), f["at"])
             ar = b.calls_named("std::process::Command::args")
             oka = len(ar) == 1
+            lv = []
             if oka:
-                lv0 = b.trace(ar[0][1]["args"][1], (), lambda t: callee_name(t) == "std::ops::Index::index")
-                lv = []
-                ident_closure = True
-                for l in lv0:
-                    if l.kind == "call" and callee_name(l.data[1]) == "std::iter::Iterator::map":
-                        mt = l.data[1]
-                        p = op_place(mt["args"][1])
-                        d = b.single_def(p["l"]) if p else None
-                        if d and d.kind == "assign" and d.node["rv"].get("agg") == "closure":
-                            cb = body_of(fx, d.node["rv"]["closure_key"])
-                            rl = cb.trace({"l": 0, "p": []})
-                            ident_closure = ident_closure and bool(rl) and all(x.kind == "param" and x.data == 2 for x in rl)
-                        else:
-                            ident_closure = False
-                        lv += b.trace(mt["args"][0], (), lambda t: callee_name(t) == "std::ops::Index::index")
-                    else:
-                        lv.append(l)
-                oka = bool(lv) and ident_closure
+                # every element handed to Command::args is an element of cmd_args[1..], unchanged (whatever builds the list)
+                lv = b.trace(ar[0][1]["args"][1], (ELEM,), lambda t: callee_name(t) == "std::ops::Index::index", {"__content__": True})
+                oka = bool(lv)
                 for l in lv:
-                    if l.kind == "call" and callee_name(l.data[1]) == "std::ops::Index::index":
+                    if l.kind == "call" and callee_name(l.data[1]) == "std::ops::Index::index" and l.path == (ELEM,):
                         it = l.data[1]
                         p = op_place(it["args"][1])
                         d = b.single_def(p["l"]) if p else None
                         rng_ok = bool(d and d.kind == "assign" and d.node["rv"].get("adt", "").endswith("RangeFrom") and const_int(b, d.node["rv"]["ops"][0]) == 1)
                         oka = oka and rng_ok and root_ids(b, it["args"][0]) == frozenset([("param", 1, ())])
-                    elif l.kind == "agg" and l.data[2].get("agg") == "closure":
-                        pass
                     else:
                         oka = False
-            ctx.inst("C18/D3", "the arguments are cmd_args[1..]", oka, "Command::args argument <- {%s}" % (", ".join(leaf_s(b, l) for l in lv) if len(ar) == 1 else ""), f["at"])
+            ctx.inst("C18/D3", "the arguments are cmd_args[1..]", oka, "elements of the Command::args argument <- {%s}" % (", ".join(leaf_s(b, l) for l in lv)), f["at"])
             cd = b.calls_named("std::process::Command::current_dir")
             okc = len(cd) == 1 and all(l.kind == "param" and l.data == 2 and l.path == (SOME, F0) for l in b.trace(cd[0][1]["args"][1]))
             ctx.inst("C18/D3", "the command runs in run_dir", okc, "current_dir argument derives from run_dir: %s" % okc, f["at"])
@@ -238,7 +254,7 @@ def run(ctx):
                 val_ctx = bool(vl) and all(l.kind == "call" and (callee_name(l.data[1]) or "").endswith("HashAlgorithm::digest_context") and
                                            root_ids(b, l.data[1]["args"][0]) == frozenset([("param", 2, (ELEM,))]) for l in vl)
                 lp2 = [l for l in b.loops().values() if i in l]
-                okc = key_alg and val_ctx and bool(lp2) and not b.continuing_exits(min(lp2, key=len))
+                okc = okc or (key_alg and val_ctx and bool(lp2) and not b.continuing_exits(min(lp2, key=len)))
             ctx.inst("C18/D4", "one digest context per requested algorithm", okc, "contexts.insert(alg, alg.digest_context()?) for every element of hash_algs: %s" % okc, f["at"])
             fin = []
             for ck in fx.closures_of.get(f["key"], []):
